@@ -95,7 +95,8 @@ const L_OWN: &str = "C20.bounded.summary_from_own_engine";
 /// engine's unbounded feed; the MockExchange's answers travel through the same feed and everything behind the Shutdown is dropped.
 /// On a current-thread runtime the whole dataset is forwarded before the engine runs at all, so no fill is ever seen (PnL 0, balances
 /// = initial snapshot); on a multi-thread runtime the number of fills seen varies from run to run, alone and concurrently alike.
-fn known() -> bool { std::env::var("VX_C20_KNOWN").is_ok() }
+static STRICT_PROBE: std::sync::atomic::AtomicBool = std::sync::atomic::AtomicBool::new(false);
+fn known() -> bool { std::env::var("VX_C20_KNOWN").is_ok() || STRICT_PROBE.load(std::sync::atomic::Ordering::SeqCst) }
 
 type State = EngineState<Recorder, DefaultInstrumentMarketData>;
 type Risk = DefaultRiskManager<State>;
@@ -487,8 +488,11 @@ fn run_batch(rt: &tokio::runtime::Runtime, on_worker: bool, fx: &Fixture, evs: &
     Batch { obs, stray, error }
 }
 
-struct St { seen: HashSet<&'static str>, n: u64, memo: HashMap<String, (Sum, String)> }
-impl St { fn fail(&mut self, label: &'static str, input: &dyn Fn() -> String, observed: String, expected: String) { if self.seen.insert(label) { report(label, input(), observed, expected); } } }
+struct St { seen: HashSet<&'static str>, n: u64, memo: HashMap<String, (Sum, String)>, relabel: Option<&'static str> }
+impl St { fn fail(&mut self, label: &'static str, input: &dyn Fn() -> String, observed: String, expected: String) {
+    // the strict probe (KNOWN FINDING, see /verif/KNOWN_FINDINGS) reports under ONE label of its own and nothing else
+    let label = match self.relabel { Some(l) => if label == L_CONC { l } else { return }, None => label };
+    if self.seen.insert(label) { report(label, input(), observed, expected); } } }
 
 fn seq_short(v: &[Exp]) -> String { let s: Vec<String> = v.iter().map(|e| match e { Exp::M(i) => format!("{i}"), Exp::D(ex) => if *ex == K { "K".into() } else if *ex == B { "B".into() } else { format!("R({})", ex.as_str()) } }).collect(); if s.len() > 40 { format!("[{} .. {}] ({} events)", s[..20].join(","), s[s.len() - 10..].join(","), s.len()) } else { format!("[{}]", s.join(",")) } }
 
@@ -599,7 +603,7 @@ fn combination(st: &mut St, fx: &Fixture, rt_name: &str, rt: &tokio::runtime::Ru
 }
 
 pub fn run(seed: u64, thorough: bool) -> u64 {
-    let mut st = St { seen: HashSet::new(), n: 0, memo: HashMap::new() };
+    let mut st = St { seen: HashSet::new(), n: 0, memo: HashMap::new(), relabel: None };
     let fx = fixture();
     let mt = tokio::runtime::Builder::new_multi_thread().worker_threads(4).enable_all().build().expect("runtime");
     let ct = tokio::runtime::Builder::new_current_thread().enable_all().build().expect("runtime");
@@ -645,6 +649,19 @@ pub fn run(seed: u64, thorough: bool) -> u64 {
         }
         round += 1;
         if round >= if thorough { 40 } else { 1 } { break; }
+    }
+    // KNOWN FINDING probe (deterministic): on a current-thread runtime the in-memory dataset is forwarded completely before the engine runs,
+    // Shutdown is queued right behind it, and every answer of the mock exchange arrives after the engine has stopped: the engine of a backtest
+    // that places orders sees NONE of its fills (strict comparison with the fills of (dataset, k)), alone and concurrently alike
+    {
+        STRICT_PROBE.store(true, std::sync::atomic::Ordering::SeqCst);
+        let mut probe = St { seen: HashSet::new(), n: 0, memo: HashMap::new(), relabel: Some("C20.bounded.execution_answers_cut_off_by_shutdown") };
+        let (evs, exp) = dataset(2, 0);
+        let evs = Arc::new(evs);
+        let jobs: Vec<(String, usize)> = vec![("b0k1".to_string(), 1)];
+        combination(&mut probe, &fx, "current-thread", &ct, false, Feed::InMemory, 2, 0, &evs, &exp, &jobs, 1);
+        STRICT_PROBE.store(false, std::sync::atomic::Ordering::SeqCst);
+        st.n += probe.n;
     }
     std::panic::set_hook(hook);
     st.n
